@@ -220,6 +220,58 @@ func VH_slice_HeadTailStripe() {
 	}
 }
 
+// VH_slice_FarArgs: integer arguments anywhere in the int range (the other
+// harnesses stay around the valid range because they concretise the argument).
+func VH_slice_FarArgs() {
+	ln := vCase("n")
+	vs := vMkInts(ln)
+	orig := append([]int{}, vs...)
+	k := vInt("k")
+	vAssume(vAny(k < -ln-1, k > ln+2))
+	vCover("far-args")
+	switch vCase("fn") {
+	case 0:
+		panicked, _ := vPanics(func() { Rotate(vs, k) })
+		vAssert(panicked, "Rotate: panics outside [-n,n], however far")
+		for i := range vs {
+			vAssert(vs[i] == orig[i], "Rotate: a refused rotation leaves the slice alone")
+		}
+	case 1:
+		var got int
+		panicked, _ := vPanics(func() { got = At(vs, k) })
+		vAssert(panicked && got == 0, "At: panics for an index out of range, however far")
+		vAssert(PtrAt(vs, k) == nil, "PtrAt: nil for an index out of range, however far")
+	case 2:
+		// (negative counts are not documented for Head/Tail/Stripe: not called)
+		vAssume(k > 0)
+		h, t := Head(vs, k), Tail(vs, k)
+		vAssert(len(h) == ln && len(t) == ln, "Head/Tail: the whole slice when n exceeds its length, however far")
+	case 3:
+		vAssume(k > 0)
+		s := Stripe([][]int{vs, vs[:ln/2]}, k)
+		vAssert(len(s) == 0, "Stripe: empty when no row is long enough")
+	case 4:
+		var out [][]int
+		panicked, _ := vPanics(func() { out = Batches(vs, k) })
+		if k < 0 {
+			vAssert(panicked, "Batches: panics for n < 0, however far")
+		} else {
+			vAssert(!panicked && len(out) == ln, "Batches: capped at len(vs) batches, however large n is")
+			vCheckPieces(vs, out, "Batches(far)")
+		}
+	case 5:
+		var out [][]int
+		panicked, _ := vPanics(func() { out = Chunks(vs, k) })
+		if k < 0 {
+			vAssert(panicked, "Chunks: panics for n < 0, however far")
+		} else {
+			vAssert(!panicked, "Chunks: no panic for a huge n")
+			vCheckPieces(vs, out, "Chunks(far)")
+			vAssert(len(out) <= 1, "Chunks: one chunk when n exceeds the length")
+		}
+	}
+}
+
 func VH_slice_At() {
 	ln := vCase("n")
 	vs := vMkInts(ln)
